@@ -179,7 +179,11 @@ func cloneLink(l intoto.Link) intoto.Link {
 var badHex = []string{"", "xyz", "12g4", "abc ", " abc", "ab\n", "0x12", "ab-cd", "é"}
 var badExpiry = []string{"", "2030-01-02", "2030-01-02T03:04:05", "2030-01-02T03:04:05+00:00", "2030-13-02T03:04:05Z",
 	"2030-02-30T03:04:05Z", "2030-01-02 03:04:05Z", "2030-1-2T03:04:05Z", "2030-01-02T24:00:00Z", "tomorrow",
-	"2030-01-02T03:04:05Zx", "2030-01-02T03:04:05.5Z", "20300-01-02T03:04:05Z"}
+	"2030-01-02T03:04:05Zx", "20300-01-02T03:04:05Z"}
+
+// accepted by time.Parse although the layout string has no fraction (Go reads a fractional second after
+// the seconds field); "parseable" is what the property asks: no demand, model tie only
+var oddExpiry = []string{"2030-01-02T03:04:05.5Z", "2030-01-02T03:04:05,123456789Z", "2030-01-02T03:04:05.Z", "2030-01-02T03:04:05.1234567890Z"}
 var badRules = [][]string{{}, {"CREATE"}, {"CREATE", "a", "b"}, {"FOO", "a"}, {"MATCH", "a", "WITH", "PRODUCTS"},
 	{"MATCH", "a", "WITH", "FOO", "FROM", "b"}, {"MATCH", "a", "IN", "b", "WITH", "PRODUCTS", "FROM"}, {""},
 	{"MATCH", "a", "WITH", "PRODUCTS", "FROM", "b", "x"}}
@@ -244,6 +248,11 @@ func layoutInvalidations(r *lib.Rng, base intoto.Layout) []valCase {
 	for _, e := range badExpiry {
 		e := e
 		add("layout-expiry", func(l *intoto.Layout) { l.Expires = e })
+	}
+	for _, e := range oddExpiry {
+		l := cloneLayout(base)
+		l.Expires = e
+		out = append(out, valCase{klass: "layout-expiry-fraction", target: "metablock", v: valInput{Layout: &l}, want: ""})
 	}
 	add("key-mapid", func(l *intoto.Layout) {
 		id, k := firstKey(l)
